@@ -114,7 +114,13 @@ class Shape(object):
                 return params, {n: getattr(self, n) for n in rest}
             ns["__init__"] = __init__
             ns[self.serialize_name] = serialize
-        if self.local:
+        if self.local and getattr(self, "hidden", False):
+            # a class that exists in an importable module without being reachable as module.Name (defined inside a
+            # function, built by a factory): only the local class table can name it
+            mod = _new_module()
+            ns["__module__"] = mod.__name__
+            self.cls = type(self.name, bases, ns)
+        elif self.local:
             ns["__module__"] = "__main__"
             self.cls = type(self.name, bases, ns)
         else:
@@ -154,6 +160,8 @@ def gen_shape(rng, local=None, depth=None, kinds=("dict", "slots"), serialize=Fa
         kind = rng.choice(kinds)
         name = "%s%d_%d" % (rng.choice(["Bean", "_Under", "K"]), uid, level)
         base = Shape(name, kind, fields, base, local, mod)
+        if local and getattr(gen_shape, "hidden_locals", False) and rng.random() < 0.3:
+            base.hidden = True
         if kind == "slots":
             base.slot_style = rng.choice(["tuple", "tuple", "list", "string", "weakref"])
     return base
@@ -168,7 +176,9 @@ def gen_enum(rng, local):
     members = rng.choice([{"RED": 1, "GREEN": 2, "BLUE": 3}, {"A": "a", "B": "b"}, {"ZERO": 0, "ONE": 1},
                           {"N": None, "T": True}, {"X": 1.5, "Y": -2.5}, {"E": "", "F": "é"},
                           # members whose value is not a JSON scalar (the Planet example of the enum documentation)
-                          {"EARTH": (5.976e+24, 6378140.0), "MARS": (6.421e+23, 3397200.0)}])
+                          {"EARTH": (5.976e+24, 6378140.0), "MARS": (6.421e+23, 3397200.0)},
+                          {"LOW": decimal.Decimal("1.50"), "HIGH": decimal.Decimal("99")},
+                          {"PAIR": (decimal.Decimal("0.1"), "x"), "NONE": ()}])
     mod = None
     if local:
         cls = enum.Enum(name, members, module="__main__")
